@@ -99,8 +99,25 @@ def gen_keys(rng, n):
     return out
 
 
-def gen_problem(rng, sizes, cfg=None):
-    mach = c03.gen_machine(rng, sizes)
+def gen_faulty_machine(rng, sizes):
+    """machines in which the dead-link repair of the router has real work: 15-40% dead directed links"""
+    w, h = rng.choice([s for s in sizes if s[0] * s[1] >= 6] or sizes)
+    p = rng.choice([0.15, 0.25, 0.3, 0.4])
+    dl = set()
+    for x in range(w):
+        for y in range(h):
+            for l, (dx, dy) in enumerate(VECS):
+                if rng.random() < p:
+                    dl.add((x, y, l))
+                    if rng.random() < 0.4:
+                        dl.add(((x + dx) % w, (y + dy) % h, (l + 3) % 6))
+    chips = [(x, y) for x in range(w) for y in range(h)]
+    dead = rng.sample(chips, rng.choice([0, 1, 1, 2]))
+    return dict(w=w, h=h, dead_chips=sorted(map(list, dead)), dead_links=sorted(map(list, dl)))
+
+
+def gen_problem(rng, sizes, cfg=None, faulty=False):
+    mach = gen_faulty_machine(rng, sizes) if faulty else c03.gen_machine(rng, sizes)
     w, h = mach["w"], mach["h"]
     dead = set(map(tuple, mach["dead_chips"]))
     live = [(x, y) for x in range(w) for y in range(h) if (x, y) not in dead]
@@ -129,6 +146,8 @@ def gen_problem(rng, sizes, cfg=None):
     for v in range(nv):
         r = rng.random()
         k = None if r < 0.08 else (0 if r < 0.14 else rng.choice([1, 1, 1, 2, 2, 3, 4]))
+        if faulty:
+            k = 1
         if k and need + k > 0.5 * free_total:
             k = 1 if need + 1 <= 0.7 * free_total else 0
         need += k or 0
@@ -156,6 +175,8 @@ def gen_problem(rng, sizes, cfg=None):
     for _ in range(nn):
         src = rng.randrange(nvt)
         fan = rng.choice([0, 1, 1, 2, 2, 3, 4, 6, 8, 12])
+        if faulty:
+            fan = rng.choice([3, 4, 6, 8, 12])
         sinks = []
         for _ in range(fan):
             r = rng.random()
@@ -196,7 +217,8 @@ def gen_problem(rng, sizes, cfg=None):
                 sdram=rng.choice([5000, 100000]), rtr=rtr,
                 rtr_exc=[[c[0], c[1], rng.choice([0, 1, 3, 1023])] for c in live if rng.random() < 0.05],
                 vr=vr, devices=devices, nets=[[s, k, wt, keys[i][0], keys[i][1]] for i, (s, k, wt) in enumerate(nets)],
-                cs=cs, seed=rng.randrange(1 << 30))
+                cs=cs, seed=rng.randrange(1 << 30),
+                c03_rseed=rng.randrange(1 << 30) if rng.random() < 0.5 else None)
     prob["cfg"] = cfg or gen_cfg(rng)
     return prob
 
@@ -349,9 +371,15 @@ def run_pipeline(prob):
     from rig.place_and_route.utils import build_machine, build_core_constraints
     from rig.routing_table import routing_tree_to_tables, minimise_tables, remove_default_routes
     from rig.routing_table.utils import build_routing_table_target_lengths
+    import rig.geometry as geometry
+    from rig.place_and_route.route import utils as rutils
     cfg = prob["cfg"]
     o = build(prob)
     _random.seed(prob["seed"])          # geometry.py / route/utils.py draw from the global generator
+    orig_random = (geometry.random, rutils.random)
+    if prob.get("c03_rseed") is not None:
+        # the tie-provoking stand-in of the C03 harness (module attribute, no source change)
+        geometry.random = rutils.random = c03.FakeRandom(prob["c03_rseed"], [])
     place, pkw = placer_call(cfg["placer"], prob["seed"] ^ 0x5bd1)
     rec = {}
 
@@ -412,6 +440,8 @@ def run_pipeline(prob):
                 final = minimise_tables(out["tables0"], out["targets"], impl_methods(out["methods"]))
         out["status"] = "ok"
         out["tables1"] = final
+    except (ImportError, SyntaxError):
+        raise
     except Exception as e:      # noqa
         name = type(e).__name__
         out["status"] = name
@@ -419,6 +449,8 @@ def run_pipeline(prob):
         if name not in DOCUMENTED:
             import traceback
             out["traceback"] = traceback.format_exc()[-1500:]
+    finally:
+        geometry.random, rutils.random = orig_random
     out.update(rec)
     return out
 
@@ -706,8 +738,16 @@ def register_result(ctx, prob, st, findings, tags, nontriv, out):
             viol.setdefault(key, what)
         else:
             ctx.mismatch(key, what, prob)
+    done = getattr(ctx, "_c01_shrunk", None)
+    if done is None:
+        done = ctx._c01_shrunk = {}
     for key, what in viol.items():
-        small = shrink(ctx, prob, key)
+        if key in done:
+            # one shrunk replay per finding class is enough; later instances are recorded as they are
+            ctx.violation(key, what, prob)
+            continue
+        small = shrink(ctx, prob, key, budget_s=12.0)
+        done[key] = True
         ctx.violation(key, what if small is prob else what + " [shrunk case: see replay]", small)
     ctx.case(prob, nontriv)
 
@@ -800,7 +840,7 @@ def run(ctx):
         "the global `random` generator is seeded per case (the router draws from it)"]
     ctx.extra["trusted_base"] = ["the SpiNNaker multicast router rules written in Rig.C01.visit (first match, default "
                                  "route = opposite link, drop of unmatched local packets, core bits 6..23)"]
-    n = ctx.scale(150, 1500)
+    n = ctx.scale(1000, 12000)
     if ctx.extended:
         n *= 4
     sizes = SIZES_Q if ctx.quick else SIZES_T
@@ -808,7 +848,7 @@ def run(ctx):
     for i in range(n):
         cfg = gen_cfg(ctx.rng, i)
         sz = sizes if (ctx.quick or ctx.rng.random() < 0.35) else SIZES_Q
-        probs.append(gen_problem(ctx.rng, sz, cfg))
+        probs.append(gen_problem(ctx.rng, sz, cfg, faulty=(i % 4 == 3)))
     for i in range(0, len(probs), 25):
         eval_problems(ctx, probs[i:i + 25])
 
